@@ -43,6 +43,7 @@ var (
 	nSeq    = flag.Int("nseq", 40, "sequential specification cases")
 	pace    = flag.Duration("pace", 8*time.Millisecond, "max random pause of a client between operations")
 	noNem   = flag.Bool("nonemesis", false, "no faults")
+	partF   = flag.Bool("partitions", false, "nemesis also cuts raft links between replicas (thorough tier)")
 	minB    = flag.Int("minb", 24, "min operations per key before it is retired")
 	maxB    = flag.Int("maxb", 40, "max operations per key before it is retired")
 	maxUnk  = flag.Int("maxunk", 4, "unknown outcomes after which a key is retired")
@@ -183,13 +184,14 @@ func (c *cluster) waitSettled(to time.Duration) (uint64, bool) {
 // ---------------------------------------------------------------- nemesis
 
 type nemesis struct {
-	c      *cluster
-	rng    *rand.Rand
-	events []nemEvent
-	mu     sync.Mutex
-	stop   chan struct{}
-	done   chan struct{}
-	procs  bool
+	c          *cluster
+	rng        *rand.Rand
+	events     []nemEvent
+	mu         sync.Mutex
+	stop       chan struct{}
+	done       chan struct{}
+	procs      bool
+	partitions bool
 }
 
 func (n *nemesis) log(what string, err error) {
@@ -233,7 +235,29 @@ func (n *nemesis) run() {
 			to := (lead + 1 + n.rng.Intn(nReplica-1)) % nReplica
 			err := n.c.reps[lead].TransferTo(uint64(to + 1))
 			n.log(fmt.Sprintf("transfer %d->%d", lead, to), err)
-		case n.procs && x >= 82:
+		case n.partitions && x >= 88:
+			// network partition: the victim's links to both other replicas are cut (or, one time in three,
+			// only one link: the victim still hears the third replica), then healed
+			others := []int{(victim + 1) % nReplica, (victim + 2) % nReplica}
+			if n.rng.Intn(3) == 0 {
+				others = others[:1]
+			}
+			var vb []uint64
+			for _, o := range others {
+				vb = append(vb, uint64(o+1))
+				n.c.reps[o].Block([]uint64{uint64(victim + 1)})
+			}
+			err := n.c.reps[victim].Block(vb)
+			n.log(fmt.Sprintf("partition %d|%v (leader=%d)", victim, others, lead), err)
+			alive := n.sleep(time.Duration(1500+n.rng.Intn(3000)) * time.Millisecond)
+			for i := range n.c.reps {
+				n.c.reps[i].Block(nil)
+			}
+			n.log("heal", nil)
+			if !alive {
+				return
+			}
+		case n.procs && x >= 76:
 			k := n.c.kids[victim]
 			k.Pause()
 			n.log(fmt.Sprintf("pause %d (leader=%d)", victim, lead), nil)
@@ -516,7 +540,7 @@ func main() {
 	var hist []string
 	if *replay == "" && *dur > 0 {
 		nem := &nemesis{c: c, rng: rand.New(rand.NewSource(*seed*104729 + 7)), stop: make(chan struct{}),
-			done: make(chan struct{}), procs: *mode == "procs"}
+			done: make(chan struct{}), procs: *mode == "procs", partitions: *partF}
 		// leader hint for the readers
 		hintStop := make(chan struct{})
 		go func() {
